@@ -27,7 +27,7 @@ PROP = dict(
         H(NP, "c01", "c01_init", "after new(): accumulated_steps == 0, in_startup, limit published, clock untouched"),
         H(NP, "c01", "c01_step_real", "steer_offset step branch, any finite correction, real conversion (three copies of the conversion circuit)", tier="thorough", timeout=1800),
         H(NP, "c01", "c01_check_real", "check_offset_steer, any finite correction, real conversion", tier="thorough", timeout=1800),
-        H("np_algo_h", "cupd", "cupd_consensus_step", "update_clock control logic (select/combine replaced by environment models): steps obey the thresholds, startup ends unconditionally after a consensus", timeout=900),
+        H("np_algo_h", "cupd", "cupd_consensus_step", "update_clock control logic (select/combine replaced by environment models): steps obey the thresholds, startup ends unconditionally after a consensus", timeout=900, native_check="native::native_consensus_leaves_startup"),
     H("np_algo_h", "cupd", "cupd_no_consensus", "update_clock without consensus touches neither clock nor startup flag", timeout=600),
 ],
 )
